@@ -802,6 +802,19 @@ func init() {
 	I["(*regexp.Regexp).MatchString"] = func(fr *frame, a []value) value {
 		re := nativeOf(a[0]).(*regexp.Regexp)
 		if s, ok := a[1].(symStr); ok {
+			if c, ok := s.norm().(string); ok {
+				return re.MatchString(c)
+			}
+			allFinite := true
+			for _, p := range s.norm().(symStr).parts {
+				if p.atom != nil && (p.atom.isInt || p.atom.dom == nil) {
+					allFinite = false
+				}
+			}
+			if allFinite {
+				// finite-domain strings: case-split (solver-checked feasibility) and match natively
+				return re.MatchString(fr.i.ex.concStr(s))
+			}
 			smt, err := anchoredRegexSMT(re.String())
 			if err != nil {
 				return re.MatchString(fr.i.ex.concStr(s))
